@@ -60,12 +60,12 @@ func (o c19PSOp) golit() string {
 	return fmt.Sprintf("s[%d] = s[%d].SymmetricDifference(s[%d])", o.a, o.b, o.c)
 }
 
-// plain known number/string keys only (the paths on which the rules are lawful)
+// known number/string keys, marked or not (the paths on which the rules are lawful)
 func c19GoodPath(p cty.Path) bool {
 	for _, s := range p {
 		if is, ok := s.(cty.IndexStep); ok {
-			k := is.Key
-			if k.IsMarked() || !k.IsKnown() || k.IsNull() || !(k.Type() == cty.Number || k.Type() == cty.String) {
+			k, _ := is.Key.Unmark() // marks on keys play no part (9ae0f30)
+			if !k.IsKnown() || k.IsNull() || !(k.Type() == cty.Number || k.Type() == cty.String) {
 				return false
 			}
 		}
@@ -90,7 +90,7 @@ func c19PathEq(a, b cty.Path) bool {
 			if !ok {
 				return false
 			}
-			eq := x.Key.Equals(y.Key)
+			eq, _ := x.Key.Equals(y.Key).Unmark()
 			if !eq.IsKnown() || !eq.True() {
 				return false
 			}
@@ -351,6 +351,8 @@ func runC19PathSet(ctx *Ctx) {
 	// different precisions, NFC-equal strings, prefixes
 	pool := []cty.Path{
 		nil, cty.GetAttrPath("a"), cty.GetAttrPath("b"), cty.GetAttrPath("ab"), cty.GetAttrPath("a").GetAttr("b"),
+		cty.GetAttrPath("a").Index(cty.NumberIntVal(1).Mark("m1")), cty.IndexPath(cty.StringVal("0").Mark("m2")),
+		cty.IndexPath(cty.NumberIntVal(0).Mark("m1").Mark("m2")),
 		cty.GetAttrPath("a").IndexInt(0), cty.GetAttrPath("a").IndexInt(1), cty.GetAttrPath("a").Index(onePt),
 		cty.GetAttrPath("a").IndexString("k"), cty.GetAttrPath("a").IndexString("é"), cty.GetAttrPath("a").IndexString("é"),
 		cty.IndexIntPath(0), cty.IndexIntPath(1), cty.IndexPath(onePt), cty.IndexStringPath("0"), cty.IndexStringPath(""),
@@ -376,9 +378,10 @@ func runC19PathSet(ctx *Ctx) {
 		}
 		ctx.Add("pathset.hash", fmt.Sprint(int(h.Sum64())), encPath(p))
 	}
-	// index keys that carry marks: comparing two such paths panics (known finding)
+	// index keys that carry marks (repaired by 9ae0f30: comparing two such paths panicked)
 	mk := func(i int64) cty.Path { return cty.IndexPath(cty.NumberIntVal(i).Mark("m1")) }
-	c19RunPS(ctx, 1, []c19PSOp{{k: "add", p: mk(1)}, {k: "add", p: mk(2)}, {k: "list"}}, true, "marked-keys")
+	c19RunPS(ctx, 1, []c19PSOp{{k: "add", p: mk(1)}, {k: "add", p: mk(2)}, {k: "list"}, {k: "has", p: mk(2)},
+		{k: "has", p: cty.IndexIntPath(1)}, {k: "add", p: cty.IndexIntPath(2)}, {k: "list"}, {k: "rem", p: cty.IndexIntPath(1)}, {k: "list"}}, true, "marked-keys")
 	nHist := ctx.N(600, 20000)
 	for i := 0; i < nHist; i++ {
 		nregs := 2 + ctx.R.Intn(3)
